@@ -11,6 +11,7 @@ tok_of le_isbytes le_val le_numkind lit_isbytes lit_val lit_numkind lit_fold brk
 """
 import ast
 import copy
+import enum
 import functools
 import io
 import json
@@ -413,7 +414,32 @@ def _lit_tok(g):
     return g.tok(g.r.randint(1, 3), g.r.randint(0, 6), s, Token.STRING if s[-1] in "'\"" else Token.NUMBER)
 
 
+def _target_tree(g, depth=0):
+    """a small expression tree as the invalid-target search sees it (None now and then)"""
+    r = g.r
+    if depth == 0 and r.random() < 0.1:
+        return None
+    L = g.locs()
+    k = r.choice(["Name", "Subscript", "Attribute", "Call", "Starred", "Compare", "List", "Tuple"] if depth < 2 else ["Name", "Call", "Attribute"])
+    nm = ast.Name(id="n", ctx=sub.Load, **L)
+    if k == "Name":
+        return nm
+    if k == "Subscript":
+        return ast.Subscript(value=nm, slice=ast.Constant(value=0, **L), ctx=sub.Load, **L)
+    if k == "Attribute":
+        return ast.Attribute(value=nm, attr="a", ctx=sub.Load, **L)
+    if k == "Call":
+        return ast.Call(func=nm, args=[], keywords=[], **L)
+    if k == "Starred":
+        return ast.Starred(value=_target_tree(g, depth + 1), ctx=sub.Load, **L)
+    if k == "Compare":
+        return ast.Compare(left=_target_tree(g, depth + 1), ops=[r.choice([ast.In(), ast.Lt()])], comparators=[nm], **L)
+    return (ast.List if k == "List" else ast.Tuple)(elts=[_target_tree(g, depth + 1) for _ in range(r.randint(0, 3))], ctx=sub.Load, **L)
+
+
 OVERRIDES = {
+    ("get_invalid_target", "node"): _target_tree, ("raise_syntax_error_invalid_target", "node"): _target_tree,
+    ("get_invalid_target", "target"): lambda g: g.r.choice(list(sub.Target)), ("raise_syntax_error_invalid_target", "target"): lambda g: g.r.choice(list(sub.Target)),
     ("literal_eval", "token"): _lit_tok, ("ensure_real", "number"): _lit_tok, ("ensure_imaginary", "number"): _lit_tok,
     ("_append_node_or_token", "tree"): _str_tree,
     ("proc_macro_arg", "a"): lambda g: [g.r.choice([g.tok(1, 3 * i, g.r.choice(["a", " ", "-l", "  "])), g.r.choice([" ", "x"])]) for i in range(g.r.randint(0, 4))],
@@ -449,7 +475,7 @@ def main():
                 owners = [p for p in kwargs.get("parts", []) if isinstance(p, ast.JoinedStr)]
                 if owners:
                     parser._path_token, parser._path_owner = g.tok(1, 0, "f'/z'", Token.STRING), rnd.choice(owners + [ast.JoinedStr(values=[])])
-            env = dict(base_env, self=parser, **kwargs)
+            env = dict(base_env, self=parser, **{k: (v.value if isinstance(v, enum.Enum) else v) for k, v in kwargs.items()})      # enum members: their ordinal, as in the contracts
             try:
                 if not all(evaluate(r, env, {})[0] is not False for r in list(c.get("requires", [])) + list(c.get("requires_assumed", []))):
                     rec["rejected_by_requires"] += 1
